@@ -617,6 +617,7 @@ class _IndexForm:
         from ..linear import Lin
         self.ok = False
         self.why = ""
+        self.bad = None
         self.d, self.fn = d, fn
         self.loc = {k_: norm.deep_uncast(v_) for k_, v_ in fs.local_sx(fn).items()}
         cond, parts, body = norm.loop_parts(loop)
@@ -652,6 +653,13 @@ class _IndexForm:
         self.base = None
         for ln, src, size in _loads_in(d, loop):
             l_ = self.lin(ir.sx(src))
+            if l_ is not None and size is not None and l_.get("i:" + self.i) is not None:
+                a_, c_ = l_.get("i:" + self.i), l_.get("", 0)
+                if a_ > self.w or c_ < 0 or (a_ == self.w and c_ + size > self.w):
+                    # recognised, and wrong: the last block (i = q - 1) is read past w*q <= length, or before the buffer
+                    self.bad = (src, "the %d-byte load at base + %d*%s%+d is not inside block %s of %d bytes: for the last block it reads past the end of the full blocks" % (
+                        size, a_, self.i, c_, self.i, self.w))
+                    return
             if l_ is None or size != self.w or l_.get("i:" + self.i) != self.w or l_.get("", 0) != 0:
                 self.why = "a block load is not %d bytes at base + %d * %s (`%s`)" % (self.w, self.w, self.i, d.text(src)[:40])
                 return
@@ -772,6 +780,8 @@ def rule_cursor(rep, d, fns):
             else:
                 rep.inconclusive(R, "murmur2_x86_impl", "tail", where=where, detail="no single pointer to the end of the full blocks (base + w * (length / w)) found for the tail")
                 guard = None
+        elif guard is None and idxf is not None and idxf.bad:
+            rep.violates(R, "murmur2_x86_impl", "block loop", where=d.where(idxf.bad[0]), detail=idxf.bad[1])
         elif guard is None:
             rep.inconclusive(R, "murmur2_x86_impl", "block loop", where=d.where(loop), detail="the loop is not guarded by `remaining >= <constant>`%s" % (
                 (" and is not an index loop over length / w either: " + idxf.why) if idxf is not None else ""))
@@ -957,6 +967,8 @@ def rule_cursor(rep, d, fns):
             w = idx8.w
             rep.holds(R, "murmur_hash<8>", "block loop", where=d.where(loop),
                       detail="index form: %d-byte loads at base + %d*%s for %s < length / %d" % (idx8.w, idx8.w, idx8.i, idx8.i, idx8.w))
+        elif idx8 is not None and idx8.bad:
+            rep.violates(R, "murmur_hash<8>", "block loop", where=d.where(idx8.bad[0]), detail=idx8.bad[1])
         elif idx8 is not None:
             rep.inconclusive(R, "murmur_hash<8>", "block loop", where=d.where(loop),
                              detail="neither `while (cursor != base + (length & ~(w-1)))` with linear block loads nor an index loop over length / w: %s" % idx8.why)
